@@ -41,6 +41,8 @@ def method_src(prog, m):
     if m["on"] == "success":
         if m["data"] != "none":
             attr = DATA_ATTR_B[m["data"]] if m.get("spell") == "b" and m["data"] in DATA_ATTR_B else DATA_ATTR[m["data"]]
+            if m.get("spell") == "c" and m["data"] == "plain":
+                attr = "#[sv::data()]"
             params.append("%s data: %s" % (attr, DATA_TY[m["data"]]))
             if m["data"] in ("inst", "instopt"):
                 recs.append("let dataj = rec::inst_data(&data);")
@@ -63,7 +65,7 @@ def method_src(prog, m):
         params.append("%s%s: %s" % (attr, n, t))
     payj = ", ".join("rec::enc(&%s)" % n for n, _ in pay)
     attr = "#[sv::msg(reply%s, reply_on=%s)]" % (
-        (", handlers=[%s]" % ", ".join(m["handlers"])) if m["handlers"] else "", m["on"])
+        ("".join(", handlers=[%s]" % h for h in m["handlers"]) if m.get("hsplit") else (", handlers=[%s]" % ", ".join(m["handlers"]))) if m["handlers"] else "", m["on"])
     ok = "true" if m["outcome"] == "ok" else "false"
     body = ("            %s\n            rec::reply_handler(\"%s\", \"%s\", rec::ctx_reply(&ctx), dataj, secondj, vec![%s]);\n"
             "            rec::touch(ctx.deps.storage, \"%s\");\n            rec::resp(\"%s\", 7, %s)\n") % (
